@@ -106,8 +106,26 @@ def F4():
     if not ok: print('  2-D integrator after set_pva(VD=5, alt=123): alt', alt, 'VD', vd)
     return ok
 
+def F5():
+    traj, imu, inc = setup()
+    p1 = sim.generate_position_measurements(traj.iloc[5::10], 1.0, rng=0)
+    p2 = sim.generate_position_measurements(traj.iloc[7::10], 1.0, rng=1)
+    ms = [measurements.Position(p1, 1.0), measurements.Position(p2, 1.0)]
+    ok = True
+    for name, run in (('feedback', lambda: filters.run_feedback_filter(traj.iloc[0], 1, 1, 1, 1, inc, measurements=ms)),
+                      ('feedforward', lambda: filters.run_feedforward_filter(traj, traj, 1, 1, 1, 1, measurements=ms))):
+        try:
+            r = run()
+            n = len(r.innovations['Position'])
+            want = len(p1) + len(p2) - (1 if name == 'feedback' else 0) * 0
+            if n < len(p1):
+                print('  %s: %d innovation rows' % (name, n)); ok = False
+        except Exception as e:
+            print('  %s with two Position streams raises %s: %s' % (name, type(e).__name__, str(e)[:80])); ok = False
+    return ok
+
 if __name__ == '__main__':
-    which = sys.argv[1:] or ['F1', 'F2', 'F3', 'F4', 'F6']
+    which = sys.argv[1:] or ['F1', 'F2', 'F3', 'F4', 'F5', 'F6']
     for w in which:
         r = globals()[w]()
         print(w, 'PASS' if r else 'FAIL')
